@@ -197,6 +197,28 @@ def repo_hash():
     return h.hexdigest()[:16]
 
 
+def ensure_fresh_repo_build(cwd, target_dir, env=None):
+    """Guard against a stale build: cargo decides what to rebuild from file modification times, so a source
+    tree whose files were restored with OLD timestamps (rsync -a, tar, some git workflows) would silently
+    keep the previously compiled deserr / deserr-internal. The content hash of the repository's sources is
+    remembered per target directory; when it changed since the last build there, the two crates of the
+    repository are removed from that target directory so that cargo compiles them from what is on disk now."""
+    h = repo_hash() + "@" + REPO
+    marker = os.path.join(target_dir, ".deserr_repo_hash")
+    old = open(marker).read() if os.path.exists(marker) else None
+    if old != h:
+        if old is not None:
+            sh(["cargo", "clean", "--offline", "-p", "deserr", "-p", "deserr-internal"], cwd=cwd, timeout=600, env=env)
+        os.makedirs(target_dir, exist_ok=True)
+        return marker, h
+    return None, None
+
+
+def mark_fresh(marker, h):
+    if marker:
+        open(marker, "w").write(h)
+
+
 def write_if_changed(path, content):
     if os.path.exists(path) and open(path).read() == content:
         return False
@@ -215,6 +237,7 @@ def build_harness(generated_rs):
             open(lock_dst, "w").write(lock_src)
         write_if_changed(os.path.join(HARNESS, "src", "generated.rs"), generated_rs)
         t0 = time.time()
+        marker, hsh = ensure_fresh_repo_build(HARNESS, TARGET)
         rc, out = sh(["cargo", "build", "--offline", "--quiet"], cwd=HARNESS, timeout=3000)
         if rc != 0:
             # a stale lock file copied from an older tree: retry once with a fresh copy
@@ -222,6 +245,7 @@ def build_harness(generated_rs):
             rc, out = sh(["cargo", "build", "--offline", "--quiet"], cwd=HARNESS, timeout=3000)
         if rc != 0:
             raise Broken("harness does not build against %s:\n%s" % (REPO, out[-6000:]))
+        mark_fresh(marker, hsh)
         return os.path.join(TARGET, "debug", "verif-harness"), time.time() - t0
 
 
